@@ -854,6 +854,70 @@ def _execute(plan, out, root, root_b, scratch):
             probe("non-ascii-name")
         if any(c in p for p in plan["files"] for c in " []&;+~"):
             probe("awkward-ascii-name")
+        # ---- an included file is missing; a like-named file sits where the
+        # reference AS WRITTEN would lead from the current directory ----------
+        if len(plan["config_order"]) > 1 and plan["cwd"] != "/":
+            victim_rel = plan["config_order"][-1]
+            victim = os.path.join(root, victim_rel)
+            planted = []
+            for rel, content in plan["files"].items():
+                if not isinstance(content, list):
+                    continue
+                for ln in content:
+                    if not isinstance(ln, dict):
+                        continue
+                    ref = ln["include"]
+                    if ref.get("style") not in ("raw", "quoted", "dot"):
+                        continue
+                    here = os.path.join(root, os.path.dirname(rel))
+                    if os.path.normpath(os.path.join(here, ref["rel"])) \
+                            != os.path.normpath(victim):
+                        continue
+                    # what the reference text names when read as a path
+                    # relative to the current directory
+                    astext = urllib.parse.unquote(_ref_text(
+                        ref, root, os.path.dirname(rel)))
+                    dp = os.path.normpath(os.path.join(cwd, astext))
+                    if dp.startswith(scratch) and dp != victim \
+                            and not os.path.lexists(dp):
+                        os.makedirs(os.path.dirname(dp), exist_ok=True)
+                        with open(dp, "w", encoding="utf-8") as f:
+                            f.write("k DECOY-IN-CWD\n")
+                        planted.append(dp)
+            if os.path.isfile(victim) and not os.path.islink(victim):
+                os.rename(victim, victim + ".away")
+                try:
+                    for entry in ("abs-path", "url", "file-abs", "rel-path"):
+                        w.begin_op("config:missing-include:%s" % entry)
+
+                        def run8():
+                            cfg, _h = _enter(
+                                entry, cfull,
+                                lambda u: ZConfig.loadConfig(schema, u),
+                                lambda f: ZConfig.loadConfigFile(schema, f))
+                            return {"ok": True, "got": {"k": list(cfg.k)}}
+                        o = ops.guarded(run8)
+                        w.end_op("ok" if o["ok"] else o["cls"])
+                        out["evaluations"] += 1
+                        if o["ok"]:
+                            violation("missing-include-accepted", "config",
+                                      "%s does not exist, yet the "
+                                      "configuration by %s loaded: %r "
+                                      "(like-named files planted under the "
+                                      "current directory: %d)"
+                                      % (victim_rel, entry, o["got"],
+                                         len(planted)))
+                        elif not o.get("cfgerr"):
+                            violation("load-failed", "config",
+                                      "a missing included file: %s by %s"
+                                      % (ops.brief(o), entry))
+                    probe("missing-include-phase")
+                    if planted:
+                        probe("missing-include-with-decoy-in-cwd")
+                finally:
+                    os.rename(victim + ".away", victim)
+                    for dp in planted:
+                        os.unlink(dp)
         # ---- fragment identifiers ------------------------------------------------------
         fc = plan["fragment_case"]
         w.begin_op("fragment:" + fc)
